@@ -89,7 +89,7 @@ def _cases(ctx, nl):
             lensgen.reorder_fields(spec, rng)      # the maximum field does not depend on the order of the field list
             hist['fields_reordered'] = hist.get('fields_reordered', 0) + 1
         edits = []
-        route = {3: 'reuse', 5: 'roundtrip'}.get(li % 7, 'direct') if li >= len(corp) else 'direct'
+        route = {1: 'handbuilt', 3: 'reuse', 5: 'roundtrip'}.get(li % 7, 'direct') if li >= len(corp) else 'direct'
         hist['route_' + route] = hist.get('route_' + route, 0) + 1
         try:
             o = lensgen.build_via(spec, route, rng)
@@ -112,7 +112,7 @@ def _cases(ctx, nl):
         hist['stop_last'] += int(st == len(spec['surfaces']) - 1)
         hist['aperture'][spec['aperture'][0]] = hist['aperture'].get(spec['aperture'][0], 0) + 1
         hist['field'][spec['field_type']] = hist['field'].get(spec['field_type'], 0) + 1
-        cases.append(dict(ps=ps, spec=spec, impl=impl, edits=edits))
+        cases.append(dict(ps=ps, spec=spec, impl=impl, edits=edits, route=route, pp=lensgen.prescription_problems(spec, o, None, edits)))
     return cases, hist
 
 
@@ -135,9 +135,9 @@ def system_checks(ctx):
         if isinstance(f2, float) and math.isfinite(f2) and key not in seen:
             seen.add(key)
             res['nontrivial'] += 1
-        bad = oracles.check_paraxial(c['ps'], c['spec'], c['impl'])
+        bad = c['pp'] + oracles.check_paraxial(c['ps'], c['spec'], c['impl'])
         if ci in fails or bad:
-            res['disagreements'].append({'spec': c['spec'], 'edits_after_first_query': c['edits'], 'model_disagrees_on': fails.get(ci, []),
+            res['disagreements'].append({'spec': c['spec'], 'route': c['route'], 'edits_after_first_query': c['edits'], 'model_disagrees_on': fails.get(ci, []),
                                          'oracle': bad[:5], 'violates_property': bool(bad)})
     if -1 in fails:
         res['disagreements'].append({'note': fails[-1], 'violates_property': False})
@@ -152,9 +152,9 @@ def search(ctx, broken, disagreements):
     import oracles
     cases, hist = _cases(ctx, ctx.n(150, 1500))
     for c in cases:
-        bad = oracles.check_paraxial(c['ps'], c['spec'], c['impl'])
+        bad = c['pp'] + oracles.check_paraxial(c['ps'], c['spec'], c['impl'])
         if bad:
-            return {'spec': c['spec'], 'edits_after_first_query': c['edits'], 'oracle': bad[:5], 'violates_property': True}
+            return {'spec': c['spec'], 'route': c['route'], 'edits_after_first_query': c['edits'], 'oracle': bad[:5], 'violates_property': True}
     return None
 
 
